@@ -121,7 +121,7 @@ func (r *aggRun) exec(op sim.Op, crashK int) (fired bool, err error) {
 		time.Sleep(time.Duration(ms) * time.Millisecond)
 		return false, nil
 	case "da":
-		n.DAOf().SubmitScript = append(n.DAOf().SubmitScript, sim.SubmitOutcome{Kind: sim.SubmitKind(op.A % 10), N: int(op.B), Advance: op.C%2 == 1})
+		n.DAOf().SubmitScript = append(n.DAOf().SubmitScript, sim.SubmitOutcome{Kind: sim.SubmitKind(op.A % 12), N: int(op.B), Advance: op.C%2 == 1})
 		return false, nil
 	case "daadv":
 		n.DAOf().Advance(1)
@@ -136,10 +136,18 @@ func (r *aggRun) exec(op sim.Op, crashK int) (fired bool, err error) {
 		f = func() { n.Reap() }
 	case "produce":
 		f = func() { err = n.Produce() }
-	case "subh":
-		f = func() { _, err = n.SubmitHeaders() }
-	case "subd":
-		f = func() { _, err = n.SubmitData() }
+	case "subh", "subd":
+		// the real submission loop runs for A ticks of the DA block time (plus half a tick), then is cancelled
+		ticks := 1 + op.A%3
+		if op.A >= 90 {
+			ticks = 200 // long window: lets a 30-attempt back-off sequence finish
+		}
+		d := time.Duration(ticks)*n.Cfg.DABlockTime + n.Cfg.DABlockTime/2
+		loop := n.M.HeaderSubmissionLoop
+		if op.K == "subd" {
+			loop = n.M.DataSubmissionLoop
+		}
+		f = func() { n.RunLoopFor(op.K, loop, d) }
 	case "include":
 		f = func() { err = n.Include() }
 	case "stop":
@@ -157,6 +165,9 @@ func (r *aggRun) exec(op sim.Op, crashK int) (fired bool, err error) {
 	if fired {
 		r.crashes++
 		r.cutLabel = n.Disk.CrashPrev + "|" + n.Disk.CrashLabel
+		if n.Disk.CrashLabel == "" {
+			r.cutLabel = "at-da-call"
+		}
 		err = nil
 	}
 	return fired, err
